@@ -7,9 +7,9 @@ W=$(mktemp -d /tmp/gtsa_refactor_XXXX)
 git -C /repo worktree add -q --detach $W/wt HEAD
 mkdir -p $W/code; cp -r /verif/gtsa /verif/check.py /verif/known_findings.json $W/code/      # snapshot of the checker (it may be edited meanwhile)
 BAD=0; N=0
-for P in refactors/*/[rs]*.diff; do
+for P in refactors/*/[rst]*.diff; do
   N=$((N+1))
-  git -C $W/wt checkout -q -- . ; rm -rf $W/wt/_gtsa_out
+  git -C $W/wt checkout -q -- . ; git -C $W/wt clean -fdq gaussian_toolbox; rm -rf $W/wt/_gtsa_out
   git -C $W/wt apply /verif/$P || { echo "$P: does not apply"; BAD=$((BAD+1)); continue; }
   for p in C01 C02 C03 C04 C05 C06 C07 C08 C09 C10 C11 C12 C13 C14 C15 C16 C17 C18 C19 C20; do
     ( GTSA_REPO=$W/wt GTSA_SELFTEST=1 python3 $W/code/check.py --property $p --tier quick > $W/$p.log 2>&1; echo "$?" > $W/$p.rc ) &
